@@ -1,6 +1,80 @@
-import MotoModel.Model.DiskCli
-import MotoModel.Spec.Dos
+/-
+  C12 — what the tools print is what the archive contains (names, order, sizes, counts).
+  (first layer: the numbers the listeners print, in the model)
+-/
+import MotoModel.Props.C02
+import MotoModel.Props.C01
 namespace Moto.C12
-open Moto Moto.Disk
-theorem placeholder : computeRequiredSlots 0 255 = (0, 255) := rfl
+open Moto
+
+/-! ### tape -/
+
+/-- **C12 (tape, create)**: for every readable source the line printed by create carries the true
+    content length, the number of data blocks written and the ordinal of the leader block. -/
+theorem tape_create_line (w : Tape.World) (t : Tape.TapeW) (l : Tape.Listener) (src : Str) (data : Bytes)
+    (hr : w (Tape.classify src).2 = some data) (t' : Tape.TapeW) (l' : Tape.Listener) (line : Str)
+    (h : Tape.injectOne w t l src = .ok t' l' line) :
+    line = Tape.lineOf l.verbose (Tape.classify src).1 (l.blockIndex + 1) data.length (Tape.dataBlocks data.length data).length
+      ∧ l'.blockIndex = l.blockIndex + ((Tape.dataBlocks data.length data).length + 2) := by
+  have hs := Tape.injectOne_spec w t l src data hr
+  cases hw : Tape.writeAll t (Tape.fileRaw (Tape.classify src).1 data) with
+  | none => rw [hw] at hs; rw [hs] at h; cases h
+  | some t2 =>
+    rw [hw] at hs
+    obtain ⟨l2, h2, _, hbi⟩ := hs
+    rw [h2] at h
+    cases h
+    refine ⟨rfl, ?_⟩
+    rw [hbi]; simp [Tape.fileRaw]
+
+/-- the number of data blocks is the number of 254-byte pieces of the content -/
+theorem tape_block_count (data : Bytes) : (Tape.dataBlocks data.length data).length = (Spec.K7.chunks254 data).length := by
+  rw [Tape.dataBlocks_eq_chunks]; simp [Spec.K7.chunks254]
+
+/-- **C12 (tape, list/extract)**: reading a file back prints its true size (sum of its payloads),
+    its number of data blocks and the ordinal of its leader -/
+theorem tape_read_line (dir name ext : Str) (kind mode : Nat) (chunks : List Bytes) (hn : Tape.NameOK name ext)
+    (s : Tape.RState) (rest : List Bytes) :
+    ∃ s', Tape.readLoop true dir s (Tape.fileFrames name ext kind mode chunks ++ rest) = Tape.readLoop true dir s' rest
+      ∧ s'.out = s.out ++ [Tape.lineOf s.l.verbose ⟨name, ext, kind, mode⟩ (s.l.blockIndex + 1) chunks.flatten.length chunks.length] := by
+  obtain ⟨l', e, _, _⟩ := Tape.readLoop_file dir name ext kind mode chunks hn s rest
+  refine ⟨_, e, ?_⟩
+  simp [List.length_flatten]
+
+/-! ### disk -/
+
+/-- **C12 (plural)**: "s" is printed exactly when the number is not 1 -/
+theorem plural_rule (n : Nat) : (Disk.plural n = [] ↔ n = 1) ∧ (Disk.plural n = Tape.str "s" ↔ n ≠ 1) := by
+  unfold Disk.plural
+  by_cases h : n = 1
+  · subst h; decide
+  · simp [h]; decide
+
+/-- **C12 (counters)**: each stored / read file counts once, with its blocks -/
+theorem counters_step (l : Disk.DL) (f : Disk.FileEv) :
+    (Disk.onEndOfFile l f).filesOne = l.filesOne + 1 ∧ (Disk.onEndOfFile l f).filesAll = l.filesAll + 1
+    ∧ (Disk.onEndOfFile l f).blocksOne = l.blocksOne + f.blocks ∧ (Disk.onEndOfFile l f).blocksAll = l.blocksAll + f.blocks
+    ∧ (Disk.onEndOfFile l f).sides = l.sides := by
+  unfold Disk.onEndOfFile
+  dsimp only
+  split
+  · split <;> simp [Disk.DL.print, Disk.DL.retLine] <;> (try split) <;> simp [Disk.DL.print]
+  · simp [Disk.DL.print]
+
+/-- a new side section starts its per-side counters at zero -/
+theorem side_counters_reset (l : Disk.DL) (n : Nat) :
+    (Disk.onBeginOfSide l n).filesOne = 0 ∧ (Disk.onBeginOfSide l n).blocksOne = 0 := by
+  unfold Disk.onBeginOfSide
+  dsimp only
+  split <;> split <;> simp [Disk.DL.print, Disk.DL.retLine] <;> (try split) <;> simp [Disk.DL.print]
+
+/-- **C12 (create = list, blocks)**: the block count create/add announce for a file of `n` bytes is
+    the number of blocks of the chain it writes, which is what list and extract count -/
+theorem announced_blocks_are_chain_blocks (n : Nat) :
+    (max 1 ((n + 254) / 255) + 7) / 8 = Disk.reqBlocks n := (C02.block_count n).symm
+
+/-- the size list/extract print for a file written by the tool is its content length (C02) -/
+theorem listed_size_is_content_length (n : Nat) :
+    (8 * (Disk.reqBlocks n - 1) + Disk.lastSectorsOf n - 1) * 255 + Disk.lastBytesOf n = n := C02.recorded_size_is_exact n
+
 end Moto.C12
